@@ -2354,6 +2354,8 @@ ws_dialer_dial(void *arg, nni_aio *aio)
 	nni_mtx_unlock(&ws->mtx);
 	ws->server    = false;
 	ws->maxframe  = d->maxframe;
+	ws->fragsize  = d->fragsize;
+	ws->recvmax   = d->recvmax;
 	ws->isstream  = d->isstream;
 	ws->recv_text = d->recv_text;
 	ws->send_text = d->send_text;
